@@ -139,20 +139,24 @@ class RenderNode(Node):
                 args["forloop"] = forloop
                 args[key] = None
 
-                for itm in forloop:
-                    args[key] = itm
-                    # A new isolated context for each item, so variables assigned
-                    # and counters incremented while rendering one item are not
-                    # seen when rendering the next.
-                    ctx = context.copy(
-                        namespace,
-                        disabled_tags=[TAG_INCLUDE],
-                        carry_loop_iterations=True,
-                        template=template,
-                    )
-                    template.render_with_context(
-                        ctx, buffer, partial=True, block_scope=True
-                    )
+                # Loops in the partial template multiply with the number of times
+                # we render it: each item's context is copied while the caller's
+                # loop iteration count is scaled by the length of the array.
+                with context.loop_iterations(len(val)):
+                    for itm in forloop:
+                        args[key] = itm
+                        # A new isolated context for each item, so variables
+                        # assigned and counters incremented while rendering one
+                        # item are not seen when rendering the next.
+                        ctx = context.copy(
+                            namespace,
+                            disabled_tags=[TAG_INCLUDE],
+                            carry_loop_iterations=True,
+                            template=template,
+                        )
+                        template.render_with_context(
+                            ctx, buffer, partial=True, block_scope=True
+                        )
             else:
                 # The bound variable is not array-like, shove it into the namespace
                 # via args.
@@ -228,17 +232,18 @@ class RenderNode(Node):
                 args["forloop"] = forloop
                 args[key] = None
 
-                for itm in forloop:
-                    args[key] = itm
-                    ctx = context.copy(
-                        namespace,
-                        disabled_tags=[TAG_INCLUDE],
-                        carry_loop_iterations=True,
-                        template=template,
-                    )
-                    await template.render_with_context_async(
-                        ctx, buffer, partial=True, block_scope=True
-                    )
+                with context.loop_iterations(len(val)):
+                    for itm in forloop:
+                        args[key] = itm
+                        ctx = context.copy(
+                            namespace,
+                            disabled_tags=[TAG_INCLUDE],
+                            carry_loop_iterations=True,
+                            template=template,
+                        )
+                        await template.render_with_context_async(
+                            ctx, buffer, partial=True, block_scope=True
+                        )
             else:
                 # The bound variable is not array-like, shove it into the namespace
                 # via args.
